@@ -426,7 +426,7 @@ mutual
         | succ fuel =>
           simp [okB, okDictB, noDupFrom] at hv
           simp [depth, depthDict] at hd
-          have h1 := decV_enc v fuel (encMembers r ++ rest) hv.2.1 (by omega) (numSafe_encMembers r rest)
+          have h1 := decV_enc v fuel (encMembers r ++ rest) hv.2.1.2 (by omega) (numSafe_encMembers r rest)
           have hm := decMember_enc (decV fuel) [] k v (encMembers r ++ rest) (by simp) h1
           have h2 := fun lf hl => decMembers_enc r [k] fuel lf rest hv.2.2 hv.1 (by omega) hl
           have hlen := encMembers_length r
@@ -466,7 +466,7 @@ mutual
           simp [okDictB] at hv
           simp [noDupFrom] at hn
           simp [depthDict] at hd
-          have h1 := decV_enc v fuel (encMembers r ++ rest) hv.1 (by omega) (numSafe_encMembers r rest)
+          have h1 := decV_enc v fuel (encMembers r ++ rest) hv.1.2 (by omega) (numSafe_encMembers r rest)
           have hm := decMember_enc (decV fuel) seen k v (encMembers r ++ rest) (by simpa using hn.1) h1
           have h2 := decMembers_enc r (k :: seen) fuel lf rest hv.2 hn.2 (by omega) (by simp at hl; omega)
           simp only [encMembers, encStr, List.cons_append, List.append_assoc, List.nil_append]
